@@ -229,9 +229,9 @@ def audit(pid: str) -> Dict[str, Any]:
         tmp.unlink(missing_ok=True)
     out = r.stdout + r.stderr
     res: Dict[str, List[str]] = {}
-    for m in re.finditer(r"'([^']+)' depends on axioms: \[([^\]]*)\]", out, re.S):
+    for m in re.finditer(r"^'(\S+)' depends on axioms: \[([^\]]*)\]", out, re.S | re.M):
         res[m.group(1)] = [a.strip() for a in m.group(2).replace("\n", " ").split(",") if a.strip()]
-    for m in re.finditer(r"'([^']+)' does not depend on any axioms", out):
+    for m in re.finditer(r"^'(\S+)' does not depend on any axioms", out, re.M):
         res[m.group(1)] = []
     bad = [n for n in names if n not in res or not set(res[n]) <= ALLOWED_AXIOMS]
     return {"theorems": names, "axioms": res, "bad": bad, "raw": out if bad else ""}
